@@ -98,6 +98,10 @@ impl EventIdGenerator {
 }
 
 fn current_millis() -> u64 {
+    #[cfg(sneldb_verif)]
+    if let Some(t) = crate::verif::clock_millis() {
+        return t;
+    }
     SystemTime::now()
         .duration_since(UNIX_EPOCH)
         .unwrap_or(Duration::ZERO)
